@@ -12,7 +12,9 @@ import (
 	"github.com/ethereum/go-ethereum/common"
 
 	clienttypes "github.com/bianjieai/tibc-go/modules/tibc/core/02-client/types"
+	commitmenttypes "github.com/bianjieai/tibc-go/modules/tibc/core/23-commitment/types"
 	"github.com/bianjieai/tibc-go/modules/tibc/core/exported"
+	tmclient "github.com/bianjieai/tibc-go/modules/tibc/light-clients/07-tendermint/types"
 	bscclient "github.com/bianjieai/tibc-go/modules/tibc/light-clients/08-bsc/types"
 	ethclient "github.com/bianjieai/tibc-go/modules/tibc/light-clients/09-eth/types"
 
@@ -131,6 +133,7 @@ func runC08TM(c *core.Ctx) {
 	facts := map[int64]map[c08Fact][]byte{} // B height -> store model
 	cur := map[c08Fact][]byte{}
 	processed := map[uint64]*big.Int{} // consensus height -> processed time (ns) on A
+	upgradedAt := uint64(0)            // height the client was upgraded to by governance (0 = never)
 	// the creation height's processed time is read back (set-up is not under test)
 	latest0, _ := w.ClientLatest(A, B.Name)
 	snapshot := func() {
@@ -222,6 +225,31 @@ func runC08TM(c *core.Ctx) {
 				w.Stats.Inc("probe-backfilled-consensus-state")
 			}
 		}
+	}
+	// governance upgrade of the client to a newer height of B (how an expired or stuck client is
+	// recovered): the root recorded by the upgrade is as good as one recorded by an update, and
+	// the confirmation delay counts from the block that executed the upgrade.  (No new tape
+	// segment: recorded runs replay unchanged.)
+	if ch.Int(3) == 1 {
+		w.Tick(time.Duration(1+ch.Int(7200)) * time.Second)
+		for i := 0; i < 2; i++ {
+			_, err := w.Block(B, nil, world.NoCrash)
+			c.Check(err)
+			snapshot()
+		}
+		h := B.Height
+		cons, err := B.ConsensusStateAt(h)
+		c.Check(err)
+		cs := tmclient.NewClientState(B.Name, p.TrustLevel, p.TrustingPeriod, p.Unbonding, p.MaxClockDrift,
+			clienttypes.NewHeight(world.Revision(B.Name), uint64(h)), commitmenttypes.GetSDKSpecs(), world.TibcPrefix, p.TimeDelay)
+		tUp := w.TimeOn(A)
+		c.Check(A.App.TIBCKeeper.ClientKeeper.UpgradeClient(A.SetupCtx().WithBlockTime(tUp), B.Name, cs, cons))
+		_, err = w.Block(A, nil, world.NoCrash)
+		c.Check(err)
+		processed[uint64(h)] = big.NewInt(tUp.UnixNano())
+		upgradedAt = uint64(h)
+		w.Stats.Inc("client-upgraded-by-governance")
+		w.Log.Add("client %s on %s upgraded to height %d at %d", B.Name, A.Name, h, tUp.UnixNano())
 	}
 	latest, _ := w.ClientLatest(A, B.Name)
 	known := func(h uint64) bool { _, ok := processed[h]; return ok }
@@ -422,8 +450,12 @@ func runC08TM(c *core.Ctx) {
 					c08KindNames[claimFact.Kind], claimFact.Src, claimFact.Dst, claimFact.Seq, claimHeight, tamper, p.TimeDelay, c08Delta(now, processed[claimHeight], delay), reason)
 			}
 		} else if honest && has && factTrue && heightOK && known(claimHeight) && delayOK {
-			c.Violate("C08/tendermint/rejected-honest/"+c08KindNames[claimFact.Kind], "honest proof of %s(%s,%s,%d) at height %d with elapsed delay was rejected: %v",
-				c08KindNames[claimFact.Kind], claimFact.Src, claimFact.Dst, claimFact.Seq, claimHeight, verr)
+			at := ""
+			if claimHeight == upgradedAt {
+				at = "@upgraded-height" // the consensus state recorded by a governance upgrade
+			}
+			c.Violate("C08/tendermint/rejected-honest/"+c08KindNames[claimFact.Kind]+at, "honest proof of %s(%s,%s,%d) at height %d%s with elapsed delay was rejected: %v",
+				c08KindNames[claimFact.Kind], claimFact.Src, claimFact.Dst, claimFact.Seq, claimHeight, at, verr)
 		}
 		if timing == 2 {
 			w.Stats.Inc("probe-now-eq-processed+delay")
